@@ -55,7 +55,7 @@ def set_engine(e):
 
 
 class Engine:
-    def __init__(self, timeout_ms=20000, fork_span=2, fork_span7=1,
+    def __init__(self, timeout_ms=20000, fork_span=16, fork_span7=1,
                  max_decisions=20000, seed=0):
         self.timeout_ms = timeout_ms
         self.seed = seed
@@ -639,8 +639,12 @@ class SymInt:
         eng = ENG
         qlin = {}
         rlin = {}
+        half = k // 2
         for name, a in self.lin.items():
             qa, ra = divmod(a, k)
+            if ra > half:           # symmetric remainder keeps the interval small
+                ra -= k
+                qa += 1
             if qa:
                 qlin[name] = qa
             if ra:
@@ -1027,6 +1031,18 @@ class OpaqueStr(_str):
         return "OpaqueStr()"
 
 
+class SymNumStr(OpaqueStr):
+    """str(x) of a symbolic integer: the decimal rendering of .num"""
+
+    def __new__(cls, num):
+        o = OpaqueStr.__new__(cls)
+        o.num = num
+        return o
+
+    def __repr__(self):
+        return "SymNumStr(%r)" % (self.num,)
+
+
 class _StrShim:
     __name__ = "str"
 
@@ -1035,6 +1051,8 @@ class _StrShim:
             r = sym_str_hook(x)
             if r is not NotImplemented:
                 return r
+            if type(x) is SymInt and not x.isf:
+                return SymNumStr(x)
             return OpaqueStr()
         return _str(x, *a)
 
